@@ -15,6 +15,7 @@ package routing
 // update: a tracked tuple gets the successor of its last number, an untracked one starts at 0; the number written into
 // the bundle is the one remembered for the tuple.
 // govc:func (*IdKeeper).update property C14
+//@ assigns mapof(idk.data), bndl.PrimaryBlock.CreationTimestamp
 //@ requires bndl != nil && idk.data != nil
 //@ requires has(idk.data, newIdTuple(bndl)) ==> idk.data[newIdTuple(bndl)] < 18446744073709551615
 //@ ensures bndl.PrimaryBlock.CreationTimestamp[1] == (old(has(idk.data, newIdTuple(bndl))) ? old(idk.data[newIdTuple(bndl)]) + 1 : 0)
